@@ -108,7 +108,7 @@ pub fn batch_cfg(prop: &str, tier: Tier, seed: u64) -> BatchCfg {
             });
         }
         "C19" => {
-            cfg.expected_probes = vec!["stage:compose:success".into(), "stage:compose:parse".into(), "stage:compose:package-lookup".into(), "stage:compose:resolution".into(), "stage:compose:encoding".into(), "stage:compose:read-source".into(), "stage:plug:success".into(), "stage:plug:plug".into(), "stage:plug:decode".into(), "stage:parse:success".into(), "stage:parse:parse".into(), "stage:targets:success".into(), "stage:targets:verdict".into(), "stage:targets:world".into(), "text_outputs_assembled".into()];
+            cfg.expected_probes = vec!["stage:compose:success".into(), "stage:compose:parse".into(), "stage:compose:package-lookup".into(), "stage:compose:resolution".into(), "stage:compose:encoding".into(), "stage:compose:read-source".into(), "stage:plug:success".into(), "stage:plug:plug".into(), "stage:plug:decode".into(), "stage:parse:success".into(), "stage:parse:parse".into(), "stage:targets:success".into(), "stage:targets:verdict".into(), "stage:targets:world".into(), "text_outputs_assembled".into(), "short_write".into(), "short_read".into(), "eintr".into(), "enospc".into(), "eio_read".into(), "open_fail".into(), "stdout_full".into()];
             // a run whose in-process reference dies (stack overflow on these bytes) is C14's
             // subject, like a child that dies on a signal: recorded, not judged
             cfg.crashes_are_violations = false;
@@ -122,10 +122,11 @@ pub fn batch_cfg(prop: &str, tier: Tier, seed: u64) -> BatchCfg {
                 "The wac binary is built with --no-default-features --features wit,wat (no registry client is linked; the registry path is C20's subject).".into(),
                 "Runs whose child dies on a signal (stack overflow on faulted input) are C14's subject and are recorded, not judged.".into(),
                 "For `wac plug` byte equality is demanded only when plugs sharing a file stem are adjacent on the command line; the statement does not fix the order otherwise.".into(),
+                "System-call faults (seam S, one run in two): short reads / short writes / EINTR are legal completions and leave the oracle unchanged; after a fault that makes a call fail (ENOSPC while writing, EIO on a read, EACCES on an open of an input) a run that exits 0 must still be right in full, a run that fails must print a diagnostic and (input faults) leave the output path untouched; the wording of that diagnostic is not compared. Fires are counted from the child's own report, not from the plan.".into(),
             ];
             cfg.components = json!({
                 "real": ["the built `wac` binary (src/bin/wac.rs, src/commands/*.rs, src/lib.rs) as a child process", "kernel file system on a tmpfs scratch tree", "in-process reference: wac-parser, wac-resolver (fs), wac-graph, wac-types, wasmprinter, wat, wit-parser, wit-component"],
-                "stub": ["kernel getrandom in the child (LD_PRELOAD shim keyed by the run's hash seed)", "the registry (not linked into this build)"],
+                "stub": ["kernel getrandom in the child (LD_PRELOAD shim keyed by the run's hash seed)", "read / write / open of the child on the scratch tree and stdout pass through the same shim, which shortens, interrupts or fails them by a counter plan drawn from the tape (seam S); the calls that are let through reach the real kernel", "the registry (not linked into this build)"],
             });
         }
         _ => {}
